@@ -11,6 +11,18 @@ E2 = "stateless model checking: exhaustive DFS of the choice tree of RNG answers
 E3 = "explicit-state BFS over operation histories of the real object, reference-model comparison in every state"
 
 CHECKS = {
+    "C14": dict(
+        built=True,
+        category="exploration",
+        engine="E1",
+        technique=E1 + "; all digraphs on <=4 nodes x all node orders, reachability-closure oracle",
+        text="All 65536 digraphs with self loops on 4 nodes (and all smaller ones) under every node iteration order and both "
+        "neighbour orders, duplicate-neighbour lists, neighbours outside the declared node set, and complete blocks of the "
+        "5-node space; the SCC partition, sinks-first order, topological order / INFEASIBLE verdict and the condensation "
+        "(nodes, exact edge set) are compared with the definition computed from the reachability closure.",
+        note="Trusts: a bitmask transitive closure. Bound: n <= 5.",
+        ref="2/C14",
+    ),
     "C13": dict(
         built=True,
         category="exploration",
